@@ -979,7 +979,33 @@ pub(crate) fn restore_replay_base<P: ProvenanceStore>(
             });
         }
 
-        return Ok((checkpoint.state, checkpoint.checkpoint.worldline_tick));
+        // The checkpoint's replay metadata must describe exactly the committed prefix it
+        // claims to summarise: one recorded tick per entry, each carrying that entry's
+        // commit id (a store that did not validate on insertion is not trusted here).
+        let checkpoint_tick = checkpoint.checkpoint.worldline_tick;
+        if checkpoint.state.tick_history.len() as u64 != checkpoint_tick.as_u64()
+            || checkpoint.state.tx_counter != checkpoint_tick.as_u64()
+        {
+            return Err(HistoryError::CheckpointReplayMetadataMismatch {
+                tick: checkpoint_tick,
+                field: "tick_history_len",
+            }
+            .into());
+        }
+        for (index, (snapshot, _, _)) in checkpoint.state.tick_history.iter().enumerate() {
+            let entry = provenance.entry(worldline_id, WorldlineTick::from_raw(index as u64))?;
+            if snapshot.hash != entry.expected.commit_hash
+                || snapshot.state_root != entry.expected.state_root
+            {
+                return Err(HistoryError::CheckpointReplayMetadataMismatch {
+                    tick: checkpoint_tick,
+                    field: "tick_history",
+                }
+                .into());
+            }
+        }
+
+        return Ok((checkpoint.state, checkpoint_tick));
     }
 
     Ok((base_state.replay_base_from_initial(), WorldlineTick::ZERO))
